@@ -178,6 +178,12 @@ def make_oracle(task):
 
 
 def run_case(case):
+    if case.get("part") == "overflow":
+        from mc.common import violation
+
+        probs = overflow_case(case["where"], case["depth"], case["declared"], case["bootstrap"], case["via"])
+        return [violation(PROP, {"part": "overflow", "where": case["where"], "depth": case["depth"], "declared": case["declared"],
+                                 "bootstrap": case["bootstrap"], "kind": "overflow_argument_shared"}, {"problems": probs[:3]}, case)] if probs else []
     return explore.replay_case(case, "props.c08")
 
 
@@ -219,17 +225,95 @@ def family(tier):
     return recs
 
 
+# ------------------------------------------------------------------------------------------------
+# constructor arguments that do not land in an attribute of their own: the overflow attribute
+# ------------------------------------------------------------------------------------------------
+OVERFLOW_SRC = """
+@spec_class(init_overflow_attr="extra"{boot})
+class Base:
+    a: int = 1
+{declared}
+@spec_class{boot2}
+class SpecSub(Base):
+    b: int = 2
+
+class PlainSub(Base):
+    pass
+"""
+
+
+def overflow_case(where, depth, declared, bootstrap, via):
+    """-> list of problems.  One mutable object is handed to two constructor calls as an UNKNOWN keyword; then the
+    first instance's copy of it is edited in place (outer list / inner list)."""
+    import typing
+
+    from spec_classes import Attr, spec_class
+
+    ns = {"spec_class": spec_class, "Attr": Attr, "Dict": typing.Dict, "Any": typing.Any}
+    src = OVERFLOW_SRC.format(boot=", bootstrap=True" if bootstrap else "", boot2="(bootstrap=True)" if bootstrap else "",
+                              declared="    extra: Dict[str, Any]\n" if declared else "")
+    exec(compile(src, "<c08-overflow>", "exec", dont_inherit=True), ns)
+    cls = ns[where]
+    payload = [[1], 1]
+    if via == "ctor":
+        o, peer = cls(p=payload), cls(p=payload)
+    else:  # the same route through a nested constructor call of a helper: update(...) is not a constructor and is left out
+        o, peer = cls(**{"p": payload, "a": 5}), cls(p=payload, q=payload)
+    probs = []
+    if snap.shared_mutable({"o": o}, {"arg": payload}):
+        probs.append("instance shares a mutable object with its constructor argument")
+    if snap.shared_mutable({"o": o}, {"peer": peer}):
+        probs.append("two instances built from the same argument share a mutable object")
+    got = o.extra["p"]
+    (got if depth == "outer" else got[0]).append(9)
+    if payload != [[1], 1]:
+        probs.append(f"constructor argument changed by an in-place edit of the instance: {payload!r}")
+    if peer.extra["p"] != [[1], 1]:
+        probs.append(f"peer changed by an in-place edit of the instance: {peer.extra['p']!r}")
+    return probs
+
+
+def overflow_worker(task):
+    from mc.common import Counter, violation
+    import itertools
+
+    C = Counter()
+    for where, depth, declared, bootstrap, via in itertools.product(("Base", "SpecSub", "PlainSub"), ("outer", "inner"), (False, True), (False, True), ("ctor", "ctor2")):
+        case = {"part": "overflow", "where": where, "depth": depth, "declared": declared, "bootstrap": bootstrap, "via": via}
+        try:
+            probs = overflow_case(where, depth, declared, bootstrap, via)
+        except Exception as e:  # the scenario itself must be constructible
+            probs = [f"scenario raised {e!r}"]
+        C.inc("states")
+        C.inc("transitions")
+        C.inc("evaluations")
+        if probs:
+            C.viol(violation(PROP, {"part": "overflow", "where": where, "depth": depth, "declared": declared, "bootstrap": bootstrap,
+                                    "kind": "overflow_argument_shared"}, {"problems": probs[:3]}, case))
+        else:
+            C.inc("traces_validated_against_impl")
+            C.nontrivial((where, depth, declared, bootstrap, via))
+    C.sample({"part": "overflow", "classes": ["Base", "SpecSub", "PlainSub"], "edit": ["outer", "inner"]})
+    return C.rec
+
+
+def dispatch(task):
+    return overflow_worker(task) if task.get("part") == "overflow" else explore.explore_class(task)
+
+
 def main(run):
     quick = run.tier == "quick"
-    tasks = []
+    tasks = [{"part": "overflow"}]
     for rec in family(run.tier):
         comp = len(rec["attrs"]) > 1
         tasks.append({"rec": rec, "depth": (1 if comp else 2) if quick else (2 if comp else 3), "module": "props.c08", "prop": PROP,
                       "tier": run.tier, "inits": 2 if quick else 4, "max_states": 300 if quick else 3000, "line_fault_depth": -1})
-    for rec in pmap(explore.explore_class, tasks):
+    for rec in pmap(dispatch, tasks):
         run.merge(rec)
     run.add(rule=(
-        "BFS over histories of construction (up to 2/3 live instances), in-place scalar / element / nested-keyword mutation of any "
+        "(overflow part: one mutable object handed to two constructor calls as an unknown keyword of a class with an overflow attribute - "
+        "declared or not, lazy or eager, the class itself / a spec subclass / a plain subclass -, then edited through the first instance at "
+        "either depth) + BFS over histories of construction (up to 2/3 live instances), in-place scalar / element / nested-keyword mutation of any "
         "live instance, assignment, del, reset_<attr>, reset; every kind x every default mode + spec- and plain-subclass overrides; "
         "three oracles after every transition (bystanders unchanged, no sharing with defaults / constructor arguments / peers, "
         "reset equals a fresh instance); non-trivial = raises or changes the state"
